@@ -277,6 +277,9 @@ class RunningVariance(Variance):
         self.mean = RunningMean(lifetime=lifetime)
         self.var = RunningMean(lifetime=lifetime)
 
+    def _accumulate_other(self, other):
+        return Accumulator._accumulate_other(self, other)
+
     @property
     def lifetime(self):
         return self.mean.lifetime
@@ -340,6 +343,9 @@ class RunningCovariance(Covariance):
     def __init__(self, lifetime=10):
         self.mean = RunningMean(lifetime=lifetime)
         self._cov = RunningMean(lifetime=lifetime)
+
+    def _accumulate_other(self, other):
+        return Accumulator._accumulate_other(self, other)
 
     @property
     def lifetime(self):
